@@ -51,7 +51,7 @@ type SiteInfo struct {
 // Sites is filled by the generated file in the instrumented copy.
 var Sites []SiteInfo
 
-const MaxTasks = 32
+const MaxTasks = 64
 
 type vclock [MaxTasks]uint32
 
